@@ -520,7 +520,13 @@ fn build_plan(tier: &str, seed: u64, cases: &[Case], catalog: &[SynthFont]) -> (
         if pool.is_empty() || fonts[fi].synth.map_or(false, |si| catalog[si].family == "extreme" || !catalog[si].corruptible) {
             continue; // the fonts with extreme values (and those marked so) are shaped as they are only
         }
-        let n_corrupt = if fonts[fi].synth.is_some() { n_corrupt / 2 } else { n_corrupt };
+        // synthesized fonts: half as many corruptions as repository fonts; the hundreds of fonts made from
+        // font cases: a quarter
+        let n_corrupt = match fonts[fi].synth.map(|si| catalog[si].family) {
+            None => n_corrupt,
+            Some("lkp") | Some("morx") | Some("morxrnd") => n_corrupt / 4,
+            Some(_) => n_corrupt / 2,
+        };
         for k in 1..=n_corrupt {
             for t in 0..n_texts {
                 let x = h(&[seed, fi as u64, k as u64, t as u64, 0xC0]);
